@@ -295,8 +295,10 @@ theorem diagram_lookup_error_iff (mt : Str → Str → Bool) (g : PGraph Str) (s
 theorem checked_iff (p : Parsed') (m : Str) :
     Checked p m ↔ (m ∈ p.modules ∧ ∃ x ∈ p.modules, x ≠ m) ∨ ∃ kv ∈ p.dependencies, m = kv.1 ∨ m ∈ kv.2 := Iff.rfl
 
-/-- the boundary: ONE isolated component generates no rule at all, nothing is looked up, the check passes on every
-    graph — whether the component exists or not -/
+/-- the boundary of the RULE BATCH: ONE isolated component generates no rule at all, the batch looks nothing up and
+    passes on every graph — whether the component exists or not. Before the repair of F-C13c this was the outcome of
+    `DiagramRule.assert_applies` (`diagram_single_component_before_repair`); the repaired `assert_applies` checks the
+    components before the batch is applied (`diagram_single_component_repaired`, `diagram_file_lookup_error_iff`). -/
 theorem diagram_single_component (mt : Str → Str → Bool) (g : PGraph Str) (so : Bool) (m : Str) (base : Option Str) :
     diagramRules so (prefixParsed ⟨[m], []⟩ base) = [] ∧
     applyAll mt g (diagramRules so (prefixParsed ⟨[m], []⟩ base)) = .pass :=
@@ -309,29 +311,39 @@ theorem parse_result_shape (c : Str) (p : Parsed') (h : pumlParse c = .ok p) :
   obtain ⟨h1, h2, h3⟩ := pumlParse_ok_props c p h
   exact ⟨fun kv hkv => (h1.2 kv hkv).2, h2, h3⟩
 
-/-- **on a diagram file**: the file parses, draws at least two components, and one of them (base module prefixed) is not
-    a node of the graph — `DiagramRule.assert_applies` raises the lookup error -/
+/-- **on a diagram file** (after the repair of F-C13c): the file parses and one of the components it draws (base module
+    prefixed) is not a node of the graph — `DiagramRule.assert_applies` raises the lookup error, however many components
+    the file draws and whether or not a generated rule names that component -/
 theorem diagram_file_unknown_component (mt : Str → Str → Bool) (g : PGraph Str) (so : Bool) (c : Str) (base : Option Str)
-    (p : Parsed') (hp : pumlParse c = .ok p) (m : Str) (hm : m ∈ p.modules) (h2 : 2 ≤ p.modules.length)
+    (p : Parsed') (hp : pumlParse c = .ok p) (m : Str) (hm : m ∈ p.modules)
     (habs : g.hasNode (withBase base m) = false) :
     diagramAssert mt (some c) base so g = .err .lookupError :=
-  diagram_file_unknown_component_lemma mt g so c base p hp m hm h2 habs
+  diagram_file_unknown_component_lemma mt g so c base p hp m hm habs
 
-/-- the exact statement on a file that parses: lookup error iff a checked component is absent; no other error -/
+/-- the exact statement on a file that parses (after the repair of F-C13c): lookup error iff SOME component (base module
+    prefixed) is not a node of the graph; no other error -/
 theorem diagram_file_lookup_error_iff (mt : Str → Str → Bool) (g : PGraph Str) (so : Bool) (c : Str) (base : Option Str)
     (p : Parsed') (hp : pumlParse c = .ok p) :
-    (diagramAssert mt (some c) base so g = .err .lookupError ↔ ∃ m, Checked p m ∧ g.hasNode (withBase base m) = false) ∧
+    (diagramAssert mt (some c) base so g = .err .lookupError ↔ ∃ m ∈ p.modules, g.hasNode (withBase base m) = false) ∧
     (∀ k, diagramAssert mt (some c) base so g = .err k → k = .lookupError) :=
   diagram_file_lookup_iff_lemma mt g so c base p hp
+
+/-- before the repair: lookup error iff a component the generated rules NAME (`Checked`) is absent -/
+theorem diagram_file_lookup_error_iff_before_repair (mt : Str → Str → Bool) (g : PGraph Str) (so : Bool) (c : Str)
+    (base : Option Str) (p : Parsed') (hp : pumlParse c = .ok p) :
+    (diagramAssertBeforeRepair mt (some c) base so g = .err .lookupError ↔
+      ∃ m, Checked p m ∧ g.hasNode (withBase base m) = false) ∧
+    (∀ k, diagramAssertBeforeRepair mt (some c) base so g = .err k → k = .lookupError) :=
+  diagram_file_lookup_iff_before_repair_lemma mt g so c base p hp
 
 /-- … and for every builder history that supplies this file last and this base module last -/
 theorem diagram_history_unknown_component (only : Bool) (ops : List DiagramRuleOp) (mt : Str → Str → Bool) (g : PGraph Str)
     (c : Str) (base : Option Str) (h : classifyDiagram (ops.map toDCall) = .complete c base)
-    (p : Parsed') (hp : pumlParse c = .ok p) (m : Str) (hm : m ∈ p.modules) (h2 : 2 ≤ p.modules.length)
+    (p : Parsed') (hp : pumlParse c = .ok p) (m : Str) (hm : m ∈ p.modules)
     (habs : g.hasNode (withBase base m) = false) :
     runDiagramOps only ops mt g = .err .lookupError := by
   rw [diagram_history_complete only ops mt g c base h]
-  exact diagram_file_unknown_component mt g only c base p hp m hm h2 habs
+  exact diagram_file_unknown_component mt g only c base p hp m hm habs
 
 /-! non-vacuity: the diagram `ui → core → db` of C07 against a graph without `db`; one isolated absent component -/
 section diagramExamples
@@ -351,19 +363,28 @@ example : gNoDb.hasNode (withBase (some "app".toList) "ui".toList) = false ∧
   decide
 /-- hypotheses of `diagram_file_unknown_component` on the file -/
 example : pumlParse exShortContent = .ok (parsedOf exShort) := Pta.Dg.parse_eq_of_check _ _ (by decide +kernel)
-example : 2 ≤ (parsedOf exShort).modules.length := by decide
+example : "db".toList ∈ (parsedOf exShort).modules ∧ gNoDb.hasNode (withBase none "db".toList) = false := by decide
 example : (diagramAssert mt0 (some exShortContent) none true gNoDb).cls = .err .lookupError := by decide +kernel
-/-- the boundary on a file: one isolated component that does not exist — no rule, no lookup, pass -/
+/-- the boundary on a file (finding F-C13c): one isolated component that does not exist. BEFORE the repair no rule is
+    generated, nothing is looked up, the check passes … -/
 example : pumlParse exOneContent = .ok ⟨["zz".toList], []⟩ := Pta.Dg.parse_eq_of_check _ _ (by decide +kernel)
-example : gNoDb.hasNode "zz".toList = false ∧ (diagramAssert mt0 (some exOneContent) none true gNoDb).cls = .pass ∧
-    (diagramAssert mt0 (some exOneContent) (some "app".toList) false gNoDb).cls = .pass := by decide +kernel
+theorem diagram_single_component_before_repair :
+    gNoDb.hasNode "zz".toList = false ∧ (diagramAssertBeforeRepair mt0 (some exOneContent) none true gNoDb).cls = .pass ∧
+    (diagramAssertBeforeRepair mt0 (some exOneContent) (some "app".toList) false gNoDb).cls = .pass := by decide +kernel
+/-- … AFTER the repair the component is checked: lookup error, with and without a base module, in both modes -/
+theorem diagram_single_component_repaired :
+    gNoDb.hasNode "zz".toList = false ∧
+    (diagramAssert mt0 (some exOneContent) none true gNoDb).cls = .err .lookupError ∧
+    (diagramAssert mt0 (some exOneContent) (some "app".toList) false gNoDb).cls = .err .lookupError := by decide +kernel
+/-- an existing isolated component still passes after the repair -/
+example : gNoDb.hasNode "ui".toList = true ∧
+    (diagramAssert mt0 (some "@startuml\n[ui]\n@enduml".toList) none true gNoDb).cls = .pass := by decide +kernel
 /-- hypotheses of `diagram_history_unknown_component` -/
 example : classifyDiagram ([DiagramRuleOp.fromFile "junk".toList, .fromFile exShortContent].map toDCall)
     = .complete exShortContent none := by decide +kernel
 example : (runDiagramOps true [.fromFile "junk".toList, .fromFile exShortContent] mt0 gNoDb).cls = .err .lookupError := by
   decide +kernel
-/-- "at least two components" is sufficient, not necessary: ONE component with an arrow to itself is checked
-    (`Checked`, right disjunct) -/
+/-- the rule batch alone: ONE component with an arrow to itself is looked up (`Checked`, right disjunct) -/
 example : (applyAll mt0 gNoDb (diagramRules true ⟨["zz".toList], [("zz".toList, ["zz".toList])]⟩)).cls = .err .lookupError := by
   decide
 /-- why `hne` is a hypothesis of `diagram_unknown_component` (it is not one of the file-level theorem): an arbitrary
